@@ -21,8 +21,8 @@ def run(tier, wd):
         specs = g.family(p, 20, core.seed(), want=want)
         per_spec, cap = 30, 14
     else:
-        specs = g.family(p, 250, core.seed(), want=want)
-        per_spec, cap = 120, 30
+        specs = g.family(p, 120, core.seed(), want=want)
+        per_spec, cap = 60, 20
     groups = []
     classes = {}
     nseq = 0
